@@ -1,5 +1,4 @@
-"""xtuml/load.py -> lean/Gen/BuildShape.lean  (C12)
-
+"""xtuml/load.py -> lean/Gen/BuildShape.lean:
 Reads, with `ast` only, the statement structure of the loader's top-level control flow:
 
   ModelLoader.populate          the ORDER of the `self.populate_<phase>(metamodel)` calls
